@@ -112,6 +112,25 @@ PROPS = {
         unchecked=["assertc_eq!/assertc_ne! panic side with symbolic operands (message formatting does not terminate in CBMC): 4 concrete pairs per macro",
                    "cmp_slice_bool under Verus (internal error on `l > r` for bools): Kani only"],
     ),
+    "C07": _p(
+        "Char iteration and char<->UTF-8/u32 conversions agree with std",
+        kani=["c07"], verus=["c07"], level="proof",
+        level_text="Kani function contracts (proof_for_contract, full domain): chr::from_u32 == char::from_u32 for every u32, chr::encode_utf8 == char::encode_utf8 for every char; complete harness: decode(encode(c)) == c through all four char iterators for every char. "
+                   "Verus: __find_next/prev_char_boundary and one-step contracts of Chars/RChars/CharIndices/RCharIndices next/next_back (remaining string, byte offsets, split on char boundaries) for every valid string; "
+                   "Kani bounded: lock-step with core::str::Chars/CharIndices, strings <= 5 bytes, 4 symbolic front/back steps",
+        technique="Kani function contracts + complete harnesses (all chars / all u32) for conversions; Verus one-step contracts for iteration; bounded Kani lock-step vs real std iterators",
+        assumptions=["in the Verus unit the decoder string_to_char is an uninterpreted function of the character's bytes; the complete Kani harness c07_decode_encode_id proves it inverts encode_utf8 for every char"],
+    ),
+    "C09": _p(
+        "Range iteration yields exactly the values std ranges yield",
+        kani=["c09"], level="proof",
+        level_text="Kani complete harnesses (loop-free, full domain of start/end): for each of the 13 Step types (6 quick, 7 thorough) and each of start..end, start..=end, start.. (owned and borrowed, forward and .rev()): "
+                   "one step of symbolic direction yields std's item and a successor state that behaves like std's successor under both next and next_back - an inductive bisimulation covering every history; "
+                   "char ranges cross the surrogate gap (cover witnesses). Bounded: 4-step mixed walks; thorough: whole for_each! iteration over all u8/i8 pairs",
+        technique="Kani complete (loop-free, full-domain) one-step bisimulation harnesses against core::ops::Range* (typewit Step dispatch is outside Verus)",
+        assumptions=["RangeFrom is checked under start < MAX (konst and std both overflow there)",
+                     "iterator fields are private: successor states are compared by behaviour (next and next_back on copies), which determines a range state up to emptiness"],
+    ),
 }
 
 NOT_APPLICABLE = {
@@ -124,8 +143,6 @@ NOT_APPLICABLE = {
 PENDING = {
     "C01": "check under construction (unsafe-site inventory + V preconditions)",
     "C06": "check under construction",
-    "C07": "check under construction",
-    "C09": "check under construction",
     "C13": "check under construction",
     "C14": "check under construction",
     "C19": "check under construction",
